@@ -16,7 +16,7 @@ package tcpassembly
 
 //@ func (s Sequence) Add(t int) Sequence
 //@   props C10
-//@   requires isSeq(s) && -4611686018427387904 < t && t < 4611686018427387904
+//@   requires isSeq(s)
 //@   ensures isSeq(result) && result == (s + t) % 4294967296
 //@   modifies nothing
 
@@ -32,3 +32,25 @@ func verifLemmaSeq(s, t Sequence, n int) (antisym, zero, shift bool) {
 	shift = s.Difference(t.Add(n)) == s.Difference(t)+n
 	return
 }
+
+// byteSpan drops exactly the prefix of bytes that was already delivered (expected is the next byte wanted).
+//@ func byteSpan(expected Sequence, received Sequence, bytes []byte) (toSend []byte, next Sequence)
+//@   props C10
+//@   requires expected == -1 || (isSeq(expected) && isSeq(received) && -1073741824 < sdiff32(received, expected) && sdiff32(received, expected) < 1073741824)
+//@   requires isSeq(received) && len(bytes) < 1073741824
+//@   ensures (expected == -1 || sdiff32(received, expected) <= 0) ==> sameSlice(toSend, bytes) && next == (received + len(bytes)) % 4294967296
+//@   ensures expected != -1 && sdiff32(received, expected) > len(bytes) ==> len(toSend) == 0 && next == expected
+//@   ensures expected != -1 && 0 < sdiff32(received, expected) && sdiff32(received, expected) <= len(bytes) ==> toSend.arr == bytes.arr && toSend.off == bytes.off + sdiff32(received, expected) && len(toSend) == len(bytes) - sdiff32(received, expected) && next == (received + len(bytes)) % 4294967296
+//@   modifies nothing
+
+// pushBetween splices the chain first..last between prev and next: exactly the four link equations, nothing else.
+//@ func (c *connection) pushBetween(prev *page, next *page, first *page, last *page)
+//@   props C10
+//@   requires first != nil && last != nil && prev != first && prev != last && next != first && next != last
+//@   ensures (next == nil || old(c.last) == nil) ==> c.last == last
+//@   ensures !(next == nil || old(c.last) == nil) ==> last.next == next && next.prev == last && c.last == old(c.last)
+//@   ensures (prev == nil || old(c.first) == nil) ==> c.first == first
+//@   ensures !(prev == nil || old(c.first) == nil) ==> first.prev == prev && prev.next == first && c.first == old(c.first)
+//@   ensures first != last && first != prev ==> first.next == old(first.next)
+//@   ensures first != last && last != next ==> last.prev == old(last.prev)
+//@   modifies connection.first connection.last page.next page.prev
